@@ -43,7 +43,9 @@ type SkipCase struct {
 var skipFieldPool = []string{"ID", "Id", "Name", "NAME", "Naſe", "Straße", "STRASSE", "Kelvin", "Kind", "Σίσυφος", "Status", "URL", "Url", "X1", "İd", "Tmp", "TmpFile", "Value"}
 var skipNestedPool = []string{"X", "Y", "Id", "Name", "Kelvin"}
 
-func isRe(p string) bool { return len(p) >= 2 && strings.HasPrefix(p, "/") && strings.HasSuffix(p, "/") }
+func isRe(p string) bool {
+	return len(p) >= 2 && strings.HasPrefix(p, "/") && strings.HasSuffix(p, "/")
+}
 
 func skipModelMatch(p, ident string, exact bool) bool {
 	if !isRe(p) {
@@ -88,7 +90,9 @@ func genSkipPattern(r *sim.Rng, paths []string) string {
 		a, b := mut(sim.Pick(r, paths)), mut(sim.Pick(r, paths))
 		p = "/^(" + regexp.QuoteMeta(a) + "|" + regexp.QuoteMeta(b) + ")$/"
 	case 8:
-		p = sim.Pick(r, []string{"Nested", "nested", "Nested.X", "nested.x", "NESTED.ID", "Nested.Kelvin", "nested.kelvin"})
+		p = sim.Pick(r, []string{"Nested", "nested", "Nested.X", "nested.x", "NESTED.ID", "Nested.Kelvin", "nested.kelvin",
+			// plain patterns whose regexp metacharacters must be taken literally
+			"N.me", "Name$", "^Name", "Nested.", "Nested.*", "NestedXX", "Nested_X", "I[dD]", "X1?", "(Name)", "Tmp|Value", "Id()", "Nested.X()"})
 	case 9:
 		p = sim.Pick(r, []string{"strasse", "STRAßE", "straße", "naſe", "NASE", "kelvin", "KELVIN", "kelvin", "σίσυφοσ", "ΣΊΣΥΦΟΣ", "id", "ıd", "İD"})
 	default:
